@@ -104,11 +104,14 @@ def run(ck, prog):
     bind.check_wrapper(ck, prog, "BIND-api", SP, "SequenceParameters.get_reduced_alphabet_sequence",
                        SEQ + ":Sequence.get_reducedAlphabetSequence")
     g = prog.fn(SEQ, "Sequence.get_reducedAlphabetSequence")
-    rets = [n for n in ast.walk(g.node) if isinstance(n, ast.Return)]
-    ok = len(rets) == 1 and isinstance(rets[0].value, ast.Call) and prog.resolve_call(g, rets[0].value) is f \
-        and [unparse(a) for a in rets[0].value.args] == ["self.seq", "alphabetSize", "userAlphabet"]
-    ck.ob("BIND-api", g.mod.relpath + ":" + g.qual, ok, expected="reduce_alphabet(self.seq, alphabetSize, userAlphabet)",
-          found=unparse(rets[0].value) if rets else None, slot="forwards", where=g.loc())
+    bind.check_wrapper(ck, prog, "BIND-api", SEQ, "Sequence.get_reducedAlphabetSequence", CX + ":SequenceComplexity.reduce_alphabet",
+                       argmap={"alphabetSize": "alphabetSize", "userAlphabet": "userAlphabet"})
+    for r in bind.returns_of(g):
+        if isinstance(r.value, ast.Call):
+            _, b = bind.bind(prog, g, r.value)
+            a = b.get("sequence") if b else None
+            ck.shape(a is not None, "get_reducedAlphabetSequence: sequence argument bound", g.loc(r))
+            ck.ob("BIND-api", g.mod.relpath + ":" + g.qual, unparse(a) == "self.seq", expected="sequence = self.seq", found=unparse(a), slot="sequence", where=g.loc(r))
 
 
 def _size_guard(ck, prog, f, construct):
